@@ -1,6 +1,9 @@
 package main
 
 import (
+	"go/ast"
+	"go/token"
+	"go/types"
 	"encoding/json"
 	"flag"
 	"fmt"
@@ -153,6 +156,83 @@ func funcInSlice(f *FuncSpec, prop string) bool {
 	return onlyStar
 }
 
+// usesTagged: the function calls a function with a prop-tagged precondition, or performs a
+// channel / clock operation whose event hook has a prop-tagged clause.
+func usesTagged(w *World, sp *Specs, prog *Program, fi *FuncInfo, spec *FuncSpec, prop string) bool {
+	if fi.decl.Body == nil {
+		return false
+	}
+	x := &Exec{w: w, sp: sp, prog: prog, fn: fi, spec: spec, prop: prop, decls: map[string]string{}}
+	info := fi.pkg.TypesInfo
+	found := false
+	evTagged := func(ev *EventSpec) {
+		if ev != nil && clauseTagged(ev.Clauses, prop) {
+			found = true
+		}
+	}
+	hw, _ := x.findEvent("heapwrite", nil)
+	ast.Inspect(fi.decl.Body, func(n ast.Node) bool {
+		if found {
+			return false
+		}
+		switch s := n.(type) {
+		case *ast.SendStmt:
+			ev, _ := x.findEvent("send", s.Chan)
+			evTagged(ev)
+		case *ast.UnaryExpr:
+			if s.Op == token.ARROW {
+				ev, _ := x.findEvent("recv", s.X)
+				evTagged(ev)
+			}
+		case *ast.RangeStmt:
+			if chanElem(info.TypeOf(s.X)) != nil {
+				ev, _ := x.findEvent("recv", s.X)
+				evTagged(ev)
+			}
+		case *ast.IndexExpr:
+			// element writes are found through their assignment statements below
+		case *ast.AssignStmt:
+			for _, l := range s.Lhs {
+				if ix, ok := ast.Unparen(l).(*ast.IndexExpr); ok {
+					if _, isSl := types.Unalias(info.TypeOf(ix.X)).Underlying().(*types.Slice); isSl {
+						evTagged(hw)
+					}
+				}
+			}
+		case *ast.CallExpr:
+			var obj types.Object
+			switch f := ast.Unparen(s.Fun).(type) {
+			case *ast.Ident:
+				obj = info.Uses[f]
+			case *ast.SelectorExpr:
+				obj = info.Uses[f.Sel]
+			}
+			switch o := obj.(type) {
+			case *types.Builtin:
+				switch o.Name() {
+				case "close":
+					ev, _ := x.findEvent("close", s.Args[0])
+					evTagged(ev)
+				case "append", "copy":
+					evTagged(hw)
+				}
+			case *types.Func:
+				key := funcKeyOf(o)
+				evTagged(x.findCallEvent(key))
+				if g := sp.Funcs[key]; g != nil {
+					for _, c := range g.Clauses {
+						if c.Kind == "requires" && hasTag(c.Tags, prop) {
+							found = true
+						}
+					}
+				}
+			}
+		}
+		return true
+	})
+	return found
+}
+
 func moduleDir(repo, pkg string) (dir, pattern string) {
 	if strings.HasPrefix(pkg, modRoot+"/v2") {
 		rel := strings.TrimPrefix(pkg, modRoot+"/v2")
@@ -277,7 +357,7 @@ func runCheck(o *Options) (int, *Evidence) {
 			trusted = append(trusted, fi.name())
 			continue
 		}
-		if !funcInSlice(fsq, o.prop) {
+		if !funcInSlice(fsq, o.prop) && !usesTagged(w, sp, prog, fi, fsq, o.prop) {
 			continue
 		}
 		x := verifyFunc(w, sp, prog, fi, fsq, o.prop)
